@@ -97,6 +97,10 @@ func verifWrapConn(s *Server, client *Client, conn net.Conn) net.Conn {
 // VerifPort returns the listening port of the server (identity for hooks).
 func (s *Server) VerifPort() int { return s.port }
 
+// VerifAofSize returns the logical size of the append-only file. Call it from a
+// hook that runs while the server lock is held.
+func (s *Server) VerifAofSize() int { return s.aofsz }
+
 // VerifObj is the projection of one stored object.
 type VerifObj struct {
 	Geo     string            `json:"geo"`     // GeoJSON text, or the raw string value
